@@ -70,6 +70,13 @@ var mgWants = []mgWant{
 	{"internal/trigger/file/file_parser.go", "", "ParseConfigFile", "", "file_ParseConfigFile"},
 	{"internal/trigger/file/stages_worker.go", "", "newStagesWorker", "return", "file_stagesWorker"},
 	{"internal/trigger/file/file_rate.go", "", "newDryRun", "return", "file_dryRun"},
+	{"internal/workers/trigger_pool.go", "TriggerPool", "sendJobsForExecution", "", "pool_sendJobs"},
+	{"internal/workers/trigger_pool.go", "TriggerPool", "Trigger", "", "pool_Trigger"},
+	{"internal/workers/trigger_pool.go", "TriggerPool", "waitForNewJobs", "", "pool_waitForNewJobs"},
+	{"internal/workers/trigger_pool.go", "TriggerPool", "run", "", "pool_run"},
+	{"internal/workers/continuous_pool.go", "ContinuousPool", "startWorker", "", "cpool_startWorker"},
+	{"internal/workers/continuous_pool.go", "ContinuousPool", "maxIterationsReached", "", "cpool_maxIterationsReached"},
+	{"internal/run/run_cmd.go", "", "runCmdExecute", "return", "cmd_execute"},
 	{"pkg/f1/testing/t.go", "T", "teardown", "", "t_teardown"},
 	{"pkg/f1/testing/t.go", "T", "Cleanup", "", "t_Cleanup"},
 	{"pkg/f1/testing/t.go", "", "handlePanic", "", "t_handlePanic"},
@@ -130,15 +137,16 @@ func findRecoverers(repo string) {
 }
 
 type mgCtx struct {
-	fset    *token.FileSet
-	atomics map[string]bool   // struct field names declared with a sync/atomic type in this package
-	rename  map[string]string // receiver / parameters → recv, arg0, …
-	alias   map[string]string // x := a.b.c (never reassigned)  →  x stands for a.b.c
-	opaque  map[string]bool   // locals holding the result of an external call: their fields are projections (`.field`)
-	inLoop  int               // > 0 inside a loop body: niladic methods are read again every time (oracles)
-	loopN   *int              // numbering of the hidden index variables of range loops
-	body    ast.Node          // the function being translated
-	pkgDir  string            // directory of the file, relative to the repository
+	fset     *token.FileSet
+	atomics  map[string]bool   // struct field names declared with a sync/atomic type in this package
+	rename   map[string]string // receiver / parameters → recv, arg0, …
+	alias    map[string]string // x := a.b.c (never reassigned)  →  x stands for a.b.c
+	opaque   map[string]bool   // locals holding the result of an external call: their fields are projections (`.field`)
+	inLoop   int               // > 0 inside a loop body: niladic methods are read again every time (oracles)
+	loopN    *int              // numbering of the hidden index variables of range loops
+	body     ast.Node          // the function being translated
+	pkgDir   string            // directory of the file, relative to the repository
+	pkgDecls []ast.Decl        // the declarations of the file being translated
 }
 
 // the identifier a selector chain is rooted in (nil if it is not one)
@@ -154,6 +162,13 @@ func rootIdent(e ast.Expr) *ast.Ident {
 		return rootIdent(x.X)
 	}
 	return nil
+}
+
+func rootName(e ast.Expr) string {
+	if r := rootIdent(e); r != nil {
+		return r.Name
+	}
+	return ""
 }
 
 // the variables of range loops: calling one is a call of a function *value* taken from a slice (a dynamic call, logged
@@ -250,6 +265,10 @@ func (c *mgCtx) staticCallee(call *ast.CallExpr) (string, []ast.Expr, bool) {
 		}
 		if c.path(f.X) != "" {
 			return f.Sel.Name, append([]ast.Expr{f.X}, call.Args...), true // method: the receiver is the first argument
+		}
+		if inner, ok := f.X.(*ast.CallExpr); ok && len(inner.Args) == 0 {
+			// x.A().B(args): the receiver is itself a niladic call
+			return f.Sel.Name, append([]ast.Expr{inner}, call.Args...), true
 		}
 	}
 	return "", nil, false
@@ -502,6 +521,8 @@ func (c *mgCtx) call(x *ast.CallExpr) string {
 			switch {
 			case len(x.Args) == 0 && builtin1[m]:
 				return "(.builtin1 " + leanStr(m) + " (.var " + leanStr(recv) + "))"
+			case len(x.Args) == 0 && c.opaque[rootName(sel.X)]:
+				return "(.field " + c.expr(sel.X) + " " + leanStr(m+"()") + ")" // a niladic method of a call result: a projection
 			case len(x.Args) == 0 && c.inLoop > 0:
 				return "(.call0 " + leanStr(recv+"."+m) + ")" // read again on every iteration: an oracle
 			case len(x.Args) == 0:
@@ -654,11 +675,7 @@ func (c *mgCtx) callStmt(call *ast.CallExpr, deferred bool) string {
 		if deferred && recv != "" { // a deferred call: its arguments are evaluated now, its effect comes at the end of the scope
 			return mk(recv + "." + m)
 		}
-		if recv != "" && len(call.Args) == 1 && !deferred {
-			// a call with an argument whose result is dropped: an effect carrying its argument's evaluation
-			return "(.seq (.eval " + c.expr(call.Args[0]) + ") " + mk(recv+"."+m+"(…)") + ")"
-		}
-		if recv != "" && len(call.Args) > 1 && !deferred {
+		if recv != "" && len(call.Args) >= 1 && !deferred {
 			// several arguments: they are evaluated left to right into `$arg.<callee>.<i>`, then the call is an effect
 			var parts []string
 			for i, a := range call.Args {
@@ -751,7 +768,23 @@ func (c *mgCtx) stmt(s ast.Stmt) string {
 				return c.dynCall(dsts, call)
 			}
 			if fn, args, ok := c.staticCallee(call); ok {
-				return "(.callS " + leanStrList(dsts) + " " + leanStr(fn) + " \"\" " + c.exprList(args) + ")"
+				var pre []string
+				for _, a := range args {
+					cl, isLit := a.(*ast.CompositeLit)
+					if !isLit {
+						continue
+					}
+					// T{F: e, …} as an argument: its fields become observable as `$lit.<T>.<F>`
+					for _, el := range cl.Elts {
+						if kv, ok := el.(*ast.KeyValueExpr); ok {
+							if k, ok := kv.Key.(*ast.Ident); ok {
+								pre = append(pre, "(.assign "+leanStr("$lit."+c.text(cl.Type)+"."+k.Name)+" "+c.expr(kv.Value)+")")
+							}
+						}
+					}
+				}
+				r := "(.callS " + leanStrList(dsts) + " " + leanStr(fn) + " \"\" " + c.exprList(args) + ")"
+				return seq(append(pre, r))
 			}
 			return c.unsupportedS(s)
 		}
@@ -838,7 +871,10 @@ func (c *mgCtx) stmt(s ast.Stmt) string {
 		return r
 	case *ast.ForStmt:
 		if x.Init == nil && x.Post == nil && x.Cond != nil {
-			return "(.while " + c.expr(x.Cond) + "\n  " + c.block(x.Body.List) + ")"
+			c.inLoop++
+			r := "(.while " + c.expr(x.Cond) + "\n  " + c.block(x.Body.List) + ")"
+			c.inLoop--
+			return r
 		}
 		if x.Init != nil && x.Post != nil && x.Cond != nil && !hasBranch(x.Body) {
 			// for init; cond; post { body }  =  init; for cond { body; post }  (no continue / break inside)
@@ -888,6 +924,22 @@ func (c *mgCtx) stmt(s ast.Stmt) string {
 		}
 		return seq(append(pre, r))
 	case *ast.RangeStmt:
+		if id, ok := x.X.(*ast.Ident); ok && x.Value == nil && c.intTyped(id.Name) {
+			// for [i :=] range n  (n an integer): n is evaluated once
+			k := strconv.Itoa(*c.loopN)
+			*c.loopN++
+			iv, nv := "$i"+k, "$n"+k
+			var body []string
+			if kid, ok := x.Key.(*ast.Ident); ok && kid.Name != "_" {
+				body = append(body, "(.assign "+leanStr(c.path(kid))+" (.var "+leanStr(iv)+"))")
+			}
+			c.inLoop++
+			body = append(body, c.block(x.Body.List))
+			c.inLoop--
+			body = append(body, "(.assign "+leanStr(iv)+" (.bin .add (.var "+leanStr(iv)+") (.int 1)))")
+			return seq([]string{"(.assign " + leanStr(nv) + " " + c.expr(x.X) + ")", "(.assign " + leanStr(iv) + " (.int 0))",
+				"(.while (.bin .lt (.var " + leanStr(iv) + ") (.var " + leanStr(nv) + "))\n  " + seq(body) + ")"})
+		}
 		arr := c.path(x.X)
 		if arr == "" || (x.Tok != token.DEFINE && x.Key != nil) {
 			return c.unsupportedS(s)
@@ -967,6 +1019,55 @@ func (c *mgCtx) stmt(s ast.Stmt) string {
 		return c.unsupportedS(s)
 	}
 	return c.unsupportedS(s)
+}
+
+var intTypes = map[string]bool{"int": true, "int64": true, "uint64": true, "int32": true, "uint32": true, "uint": true}
+
+// is the local or parameter `name` of the function being translated declared with an integer type? Parameters by their
+// declared type; locals defined from a call by the declared result type of a function or method of that name in the package
+func (c *mgCtx) intTyped(name string) bool {
+	fd, ok := c.body.(*ast.FuncDecl)
+	if !ok {
+		return false
+	}
+	for _, p := range fd.Type.Params.List {
+		for _, nm := range p.Names {
+			if nm.Name == name {
+				id, ok := p.Type.(*ast.Ident)
+				return ok && intTypes[id.Name]
+			}
+		}
+	}
+	res := false
+	ast.Inspect(fd.Body, func(n ast.Node) bool {
+		as, ok := n.(*ast.AssignStmt)
+		if !ok || as.Tok != token.DEFINE || len(as.Lhs) != 1 || len(as.Rhs) != 1 {
+			return true
+		}
+		if id, ok := as.Lhs[0].(*ast.Ident); !ok || id.Name != name {
+			return true
+		}
+		call, ok := as.Rhs[0].(*ast.CallExpr)
+		if !ok {
+			return true
+		}
+		callee := ""
+		switch f := call.Fun.(type) {
+		case *ast.Ident:
+			callee = f.Name
+		case *ast.SelectorExpr:
+			callee = f.Sel.Name
+		}
+		for _, d := range c.pkgDecls {
+			if g, ok := d.(*ast.FuncDecl); ok && g.Name.Name == callee && g.Type.Results != nil && len(g.Type.Results.List) == 1 {
+				if id, ok := g.Type.Results.List[0].Type.(*ast.Ident); ok && intTypes[id.Name] {
+					res = true
+				}
+			}
+		}
+		return true
+	})
+	return res
 }
 
 // break / continue / goto / fallthrough anywhere inside (function literals excluded)
@@ -1081,7 +1182,7 @@ func translateMiniGo(repo string) string {
 		}
 		loopN := 0
 		c := &mgCtx{fset: fsets[w.file], atomics: atomCache[w.file], rename: map[string]string{}, alias: map[string]string{},
-			opaque: map[string]bool{}, loopN: &loopN, body: fd, pkgDir: filepath.Dir(w.file)}
+			opaque: map[string]bool{}, loopN: &loopN, body: fd, pkgDir: filepath.Dir(w.file), pkgDecls: af.Decls}
 		structLocals = map[string]bool{}
 		// locals that receive the results of a call with several results
 		ast.Inspect(fd.Body, func(nd ast.Node) bool {
@@ -1163,7 +1264,7 @@ func translateMiniGo(repo string) string {
 			if depth == len(steps)-1 {
 				fmt.Fprintf(&out, "def %s_init : Stmt :=\n  %s\n\n", w.lean, cc.block(init))
 			}
-			c2 := &mgCtx{fset: c.fset, atomics: c.atomics, rename: map[string]string{}, alias: c.alias, opaque: c.opaque, loopN: c.loopN, body: c.body, pkgDir: c.pkgDir}
+			c2 := &mgCtx{fset: c.fset, atomics: c.atomics, rename: map[string]string{}, alias: c.alias, opaque: c.opaque, loopN: c.loopN, body: c.body, pkgDir: c.pkgDir, pkgDecls: c.pkgDecls}
 			for k, v := range cc.rename {
 				c2.rename[k] = v
 			}
